@@ -2,6 +2,7 @@
 import os
 import sys
 import json
+import re
 
 REPO = os.environ.get('VERIF_REPO', '/repo')
 if REPO not in sys.path:
@@ -298,6 +299,57 @@ def run_enc_vector(i, v):
     return line
 
 
+_QUAD = re.compile(r'^(\d{1,3})\.(\d{1,3})\.(\d{1,3})\.(\d{1,3})(/\d{1,2})?$')
+
+
+def respell(x, digits):
+    """every dotted-quad text (address or prefix) inside a request, written with at least `digits` digits per octet"""
+    if isinstance(x, str):
+        m = _QUAD.match(x)
+        if m:
+            return '.'.join('%0*d' % (digits, int(g)) for g in m.groups()[:4]) + (m.group(5) or '')
+        return x
+    if isinstance(x, (list, tuple)):
+        return type(x)(respell(i, digits) for i in x)
+    if isinstance(x, dict):
+        return {k: respell(val, digits) for k, val in x.items()}
+    return x
+
+
+def run_spell_vector(i, v):
+    """C06 on other spellings of the same values: refused, or decoded to what the text denotes"""
+    ref = bytes(v['b'])
+    u = v['u']
+    line = {'id': i, 'kind': 'updspell', 'cls': 'spell%d-attrs%s-wd%d-nl%d' % (v['sp'], '.'.join(str(a[0]) for a in u['attrs']), len(u['wd']), len(u['nlri'])),
+            'asn4': v['asn4'], 'ref': list(ref), 'impl': [], 'raised': False, 'none': False, 'rt_ok': False, 'dec_ok': False, 'dec_err': False, 'diff': '', 'ddiff': ''}
+    inp, exp = M.update_in_out(u, v['asn4'], NAMES)
+    try:
+        # one thing at a time: the addresses inside the attributes, or (when the attributes are the base set) the prefixes
+        if [a[0] for a in u['attrs']] == [1, 2, 3] and tuple(u['attrs'][2][1]) == (10, 0, 0, 1):
+            req = dict(inp, nlri=respell(inp['nlri'], v['sp']), withdraw=respell(inp['withdraw'], v['sp']))
+        else:
+            req = dict(inp, attr=respell(inp['attr'], v['sp']))
+        impl = Update.construct(req, v['asn4'])
+    except Exception as e:
+        line['raised'] = True
+        line['diff'] = 'construct raised %r' % (e,)
+        return line
+    if impl is None:
+        line['none'] = True
+        return line
+    line['impl'] = list(impl)
+    try:
+        d = Update.parse(0, impl[19:], v['asn4'])
+        dd = diff(exp, d)
+        if d.get('sub_error'):
+            dd = dd or 'sub_error=%r' % (d['sub_error'],)
+        line['rt_ok'] = dd == ''
+        line['diff'] = dd[:300]
+    except Exception as e:
+        line['diff'] = 'parse raised %r' % (e,)
+    return line
+
+
 def run_mpdec_vector(i, v):
     """IPv4 unicast inside MP_REACH_NLRI / MP_UNREACH_NLRI in every encoding variant: decode only (C09)"""
     ref = bytes(v['b'])
@@ -327,6 +379,8 @@ def run_mpdec_vector(i, v):
 def run_vector(i, v):
     if v['kind'] == 'mpdec':
         return run_mpdec_vector(i, v)
+    if v['kind'] == 'updspell':
+        return run_spell_vector(i, v)
     if v['kind'] == 'mp':
         return run_mp_vector(i, v)
     if v['kind'] == 'enc':
